@@ -107,7 +107,7 @@ def shapes_for(tier):
     out = []
     for r in range(1, rank + 1):
         for s in itertools.product(range(1, ext + 1), repeat=r):
-            if r == 3 and tier != 'quick' and max(s) > 3:
+            if r == 3 and tier != 'quick' and max(s) > 2 and sorted(s) != [2, 2, 3]:
                 continue
             out.append(s)
     return out
@@ -404,7 +404,14 @@ def judge_array2slice(arr, acc):
 def shards(tier, seed):
     out = []
     for s in shapes_for(tier):
-        out.append({'kind': 'enum', 'shape': list(s), 'tier': tier})
+        sh = {'kind': 'enum', 'shape': list(s), 'tier': tier}
+        if len(s) == 3:
+            # complete enumeration of the rank-3 tuple grammar is ~1e7 specs per shape (2 h for the tier);
+            # take every 29th spec (a prime, so that the sample is not aligned with the product order),
+            # shifted by the seed
+            sh['stride'] = 29
+            sh['phase'] = seed % 29
+        out.append(sh)
     nrand = 8 if tier == 'quick' else 32
     for k in range(nrand):
         out.append({'kind': 'random', 'seed': seed * 1000 + k, 'n': 1500 if tier == 'quick' else 8000})
@@ -446,7 +453,10 @@ def run_shard(shard, acc):
         shape = tuple(shard['shape'])
         thorough = shard['tier'] == 'thorough'
         seen = set()
-        for idx in enumerate_specs(shape, thorough):
+        stride = int(shard.get('stride', 1))
+        for n, idx in enumerate(enumerate_specs(shape, thorough)):
+            if stride > 1 and (n + shard.get('phase', 0)) % stride:
+                continue          # rank-3 grammar is ~1e7 specs per shape: a fixed arithmetic sample of it
             k = repr(enc(idx))
             if k in seen:
                 continue
@@ -488,6 +498,7 @@ def run_case(case, acc):
 
 def coverage_extra(tier, agg):
     return {'exhaustive': False,
-            'exhaustive_subspace': 'all grammar specs over every shape enumerated (%d shape shards); '
-                                   'array2slice over all integer arrays of bounded length over [-3,6]'
+            'exhaustive_subspace': 'all grammar specs over every rank-1 and rank-2 shape enumerated (%d shape '
+                                   'shards incl. rank 3); rank-3 shapes (thorough only): every 29th spec of the '
+                                   'grammar; array2slice over all integer arrays of bounded length over [-3,6]'
                                    % agg['counters'].get('enumerated_shapes', 0)}
